@@ -5,7 +5,7 @@ import ClaripyProofs.Props.C04
 Eager folding computes the denotation: if the folding model (`foldOp`, the model of
 `backends.concrete.call` = bv.py arithmetic on Python ints) returns a value for a constant node, that value
 is the SMT-LIB value `applyOp` assigns to the node.  Proved from the bridge lemmas, for every width.
-Operators whose bridge lemma is not proved yet (`reverse`, n-ary `concat`) are excluded by `Proven`.
+The operator whose bridge lemma is not proved yet (`reverse`) is excluded by `Proven`.
 -/
 namespace Claripy.AST
 open Claripy.BV
@@ -20,7 +20,7 @@ def CVal.Canon : CVal → Prop
   | .bool _ => True
 
 def Proven : Op → Bool
-  | .reverse | .concat => false
+  | .reverse => false
   | _ => true
 
 theorem bin_sound (f : Nat → Nat → Nat → R) (g : (w : Nat) → BitVec w → BitVec w → BitVec w)
@@ -205,6 +205,23 @@ theorem foldl_or_bools (vs : List CVal) (h : ∀ v ∈ vs, ∃ b, v = .bool b) (
     rw [ih (fun u hu => h u (List.mem_cons_of_mem _ hu))]
     simp [List.any_cons, cvTrue, Bool.or_assoc]
 
+theorem concat_foldl_sound (ps : List (Nat × Nat)) (hps : ∀ p ∈ ps, p.1 < 2 ^ p.2) (n w : Nat) (hn : n < 2 ^ w) :
+    (ps.map fun p => Val.bv p.2 p.1).foldl valConcat (.bv w n) =
+      .bv (ps.foldl (fun (acc : Nat × Nat) (vb : Nat × Nat) => (concat2 vb.2 acc.1 vb.1, acc.2 + vb.2)) (n, w)).2
+          (ps.foldl (fun (acc : Nat × Nat) (vb : Nat × Nat) => (concat2 vb.2 acc.1 vb.1, acc.2 + vb.2)) (n, w)).1 ∧
+    (ps.foldl (fun (acc : Nat × Nat) (vb : Nat × Nat) => (concat2 vb.2 acc.1 vb.1, acc.2 + vb.2)) (n, w)).1 <
+      2 ^ (ps.foldl (fun (acc : Nat × Nat) (vb : Nat × Nat) => (concat2 vb.2 acc.1 vb.1, acc.2 + vb.2)) (n, w)).2 := by
+  induction ps generalizing n w with
+  | nil => exact ⟨rfl, hn⟩
+  | cons p ps ih =>
+    simp only [List.map_cons, List.foldl_cons]
+    have hp := hps p (List.mem_cons_self ..)
+    have hspec := concat2_spec w p.2 n p.1 hn hp
+    have hlt : concat2 p.2 n p.1 < 2 ^ (w + p.2) := by rw [hspec]; exact (BitVec.ofNat w n ++ BitVec.ofNat p.2 p.1).isLt
+    have := ih (fun q hq => hps q (List.mem_cons_of_mem _ hq)) (concat2 p.2 n p.1) (w + p.2) hlt
+    rw [show valConcat (.bv w n) (.bv p.2 p.1) = .bv (w + p.2) (concat2 p.2 n p.1) by simp [valConcat, hspec]]
+    exact this
+
 /-- **Folding computes the denotation**: for every proven operator, every width and all constants, if folding a
 well-typed constant node returns a value, it is the SMT-LIB value of the node. -/
 theorem foldOp_sound (op : Op) (hp : Proven op = true) (vs : List CVal) (hwt : WT op vs) (hvs : ∀ v ∈ vs, v.Canon) (c : CVal)
@@ -222,6 +239,43 @@ theorem foldOp_sound (op : Op) (hp : Proven op = true) (vs : List CVal) (hwt : W
         | exact reduceL_bin_sound and_ _ and_h _ hvs c h
         | exact reduceL_bin_sound or_ _ or_h _ hvs c h
         | exact reduceL_bin_sound xor_ _ xor_h _ hvs c h
+  case concat =>
+    obtain ⟨hne, hbv⟩ := hwt
+    -- the (value, bits) pairs of the operands
+    have hpairs : ∀ (l : List CVal), (∀ v ∈ l, ∃ x w, v = .bv x w) →
+        (l.filterMap pairOf).length = l.length ∧
+        l.map CVal.toVal = (l.filterMap pairOf).map (fun p => Val.bv p.2 p.1) := by
+      intro l hl
+      induction l with
+      | nil => exact ⟨rfl, rfl⟩
+      | cons v l ih =>
+        obtain ⟨x, w, rfl⟩ := hl v (List.mem_cons_self ..)
+        obtain ⟨i1, i2⟩ := ih (fun u hu => hl u (List.mem_cons_of_mem _ hu))
+        exact ⟨by simp [List.filterMap, pairOf, i1], by simp [List.filterMap, pairOf, CVal.toVal, i2]⟩
+    obtain ⟨hlen, hmap⟩ := hpairs vs hbv
+    simp only [foldOp] at h
+    rw [if_pos hlen] at h
+    cases h
+    cases vs with
+    | nil => exact absurd rfl hne
+    | cons v0 rest =>
+      obtain ⟨x0, w0, rfl⟩ := hbv _ (List.mem_cons_self ..)
+      have hx0 : x0 < 2 ^ w0 := hvs (.bv x0 w0) (List.mem_cons_self ..)
+      obtain ⟨_, hmapr⟩ := hpairs rest (fun u hu => hbv u (List.mem_cons_of_mem _ hu))
+      have hcanon : ∀ p ∈ (rest.filterMap pairOf), p.1 < 2 ^ p.2 := by
+        intro p hp
+        simp only [List.mem_filterMap] at hp
+        obtain ⟨v, hv, hvp⟩ := hp
+        obtain ⟨x, w, rfl⟩ := hbv v (List.mem_cons_of_mem _ hv)
+        simp only [pairOf, Option.some.injEq] at hvp
+        subst hvp
+        exact hvs (.bv x w) (List.mem_cons_of_mem _ hv)
+      obtain ⟨e1, e2⟩ := concat_foldl_sound _ hcanon x0 w0 hx0
+      simp only [List.map_cons, applyOp, foldVals, CVal.toVal, hmapr]
+      simp only [List.filterMap_cons, pairOf, Claripy.BV.concat, List.foldl_cons]
+      have hz : concat2 w0 0 x0 = x0 := by simp [concat2]
+      simp only [hz, Nat.zero_add]
+      rw [e1, mask_of_lt e2]
   case sub =>
     obtain ⟨w, x, y, hw, rfl⟩ := hwt
     simp only [foldOp] at h
